@@ -7,13 +7,19 @@ with cryptography/nacl directly.
 Fault part: a MITM tap on the server->client wire alters exactly one thing in the (plaintext)
 key-exchange reply - one byte at an enumerated position of an enumerated field, a swapped host
 key, a signature over something else, swapped fields, the gex GROUP values - and the client must
-abort.
+abort.  The same alterations are applied to the reply of a *re-key* exchange (exchange index 1, 2)
+at the server's plaintext seam (kexfix.SeamPacketizer - later exchanges are encrypted, a wire tap
+cannot edit them): the client must abort there just the same.
+Request dimension: the group-exchange client asks for other legal (min, n, max) sizes than
+paramiko's own (and the old-style single-size request); H on both sides is compared with the
+reference, which hashes the numbers the client really sent.
 """
 import os
 
 from vmc import core, enum, fixtures as F, kexfix as K
 from vmc.refs import exhash as X
 import paramiko
+from paramiko.kex_gex import KexGex, KexGexSHA256
 
 PID = "C06"
 META = {
@@ -28,7 +34,14 @@ META = {
             "and every 8th (fields > 160 bytes: every 32nd) byte of every reply field (quick) / at every byte position, plus XOR 0x80 on "
             "the cheap combinations (thorough); host key replaced by another key of the same / a "
             "different type; signature replaced by a genuine signature over another hash; fields "
-            "swapped; gex GROUP p/g bytes altered.",
+            "swapped; gex GROUP p/g bytes altered. Exchange-index dimension: a reduced edit list (length "
+            "prefix / first / middle / last byte of every field, all substitutions) is applied to the "
+            "reply of re-key exchange 1 (all 16 combinations, client initiates) and 2 (cheap "
+            "combinations, server initiates) at the server's plaintext seam; thorough: the full quick "
+            "edit list at exchange 1 and the reduced one at exchange 2, either side initiating. "
+            "Gex request dimension: both gex methods x client requests (min,n,max) in "
+            "{(2048,2048,2048), (2048,3072,8192), (1024,1024,1024), (1024,1536,2048), (1024,4096,4096)} "
+            "and old-style n in {1024, 2048}, each followed by one re-key.",
     "note": "both peers are paramiko transports; H and the signature are re-checked by an independent "
             "reference so that a symmetric bug cannot cancel out; K itself is taken from the peers "
             "(equality checked), the reference cannot recompute it without the private exponents",
@@ -53,6 +66,38 @@ def other_key(kind):
         cls = {"ed25519": paramiko.Ed25519Key, "rsa": paramiko.RSAKey, "ecdsa": paramiko.ECDSAKey}[typ]
         _other[kind] = cls.from_private_key_file(F.keypath(fn), password=pw)
     return _other[kind]
+
+
+GEX_BASE = {"diffie-hellman-group-exchange-sha1": KexGex,
+            "diffie-hellman-group-exchange-sha256": KexGexSHA256}
+# legal requests other than paramiko's own (1024, 2048, 8192); ("old", n) = KEXDH_GEX_REQUEST_OLD
+GEX_REQUESTS = ((2048, 2048, 2048), (2048, 3072, 8192), (1024, 1024, 1024), (1024, 1536, 2048),
+                (1024, 4096, 4096), ("old", 2048), ("old", 1024))
+_gexcls = {}
+
+
+def gex_client_class(kex, req):
+    """A group-exchange client engine that sends the request `req` (what a non-paramiko client such
+    as OpenSSH or PuTTY does); everything else is the stock engine."""
+    req = tuple(req)
+    if (kex, req) not in _gexcls:
+        base = GEX_BASE[kex]
+        if req[0] == "old":
+            class Cls(base):
+                preferred_bits = req[1]
+
+                def start_kex(self, _test_old_style=False):
+                    return base.start_kex(self, _test_old_style=True)
+        else:
+            class Cls(base):
+                min_bits, preferred_bits, max_bits = req
+        _gexcls[(kex, req)] = Cls
+    return _gexcls[(kex, req)]
+
+
+def set_gex_request(p, kex, req):
+    p.tc._kex_info = dict(p.tc._kex_info)
+    p.tc._kex_info[kex] = gex_client_class(kex, req)
 
 
 def hk_family(alg):
@@ -89,7 +134,10 @@ def reference_H(kex, V_C, V_S, cx, sx, Kval):
         H = X.exchange_hash(kex, V_C, V_S, I_C, I_S, reply["K_S"], Kval, Q_C=Q_C, Q_S=reply["Q_S"])
     else:
         rq = X.Reader(cm[0][1:])
-        mn, n, mx = rq.u32(), rq.u32(), rq.u32()
+        if cm[0][0] == 30:      # KEXDH_GEX_REQUEST_OLD: only n is sent and hashed (RFC 4419 s5)
+            mn, n, mx = None, rq.u32(), None
+        else:
+            mn, n, mx = rq.u32(), rq.u32(), rq.u32()
         e = X.Reader(cm[1][1:]).mpint()
         g = X.Reader(sm[0][1:])
         p_, g_ = g.mpint(), g.mpint()
@@ -98,9 +146,11 @@ def reference_H(kex, V_C, V_S, cx, sx, Kval):
     return H, reply
 
 
-def honest_body(kex, alg, rekeys):
+def honest_body(kex, alg, rekeys, gexreq=None):
     def body(s):
         p = K.kpair(kex, alg)
+        if gexreq is not None:
+            set_gex_request(p, kex, gexreq)
         p.start()
         p.auth()
         for who, nk in rekeys:
@@ -131,11 +181,16 @@ def honest_body(kex, alg, rekeys):
     return body
 
 
-def judge_honest(acc, kex, alg, rekeys, ex):
+def judge_honest(acc, kex, alg, rekeys, ex, gexreq=None):
     case = {"kex": kex, "hostkey": alg, "rekeys": rekeys}
+    rq = ""
+    if gexreq is not None:
+        case["gex_request"] = list(gexreq)
+        rq = ":request=old-style" if gexreq[0] == "old" else ":request=min-n-max-not-paramikos-own"
     replay = {"kind": "honest", "case": case}
     if ex.outcome != "ok":
-        acc.violation("honest-handshake-fails:%s:%s" % (K.short(kex), K.exc_name(ex.error) or ex.outcome),
+        acc.violation("honest-handshake-fails:%s:%s%s" % (K.short(kex), K.exc_name(ex.error) or ex.outcome,
+                                                         rq),
                       {"case": case, "error": repr(ex.error)}, replay)
         return
     v = ex.value
@@ -155,10 +210,11 @@ def judge_honest(acc, kex, alg, rekeys, ex):
             acc.violation("harness-kex-not-forced", {"case": case, "used": used}, replay)
             return
         if kc != ks:
-            acc.violation("peers-hold-different-secret:%s" % fam, {"case": case, "exchange": i}, replay)
-        if hc != hs:
-            acc.violation("peers-hold-different-exchange-hash:%s" % fam, {"case": case, "exchange": i},
+            acc.violation("peers-hold-different-secret:%s%s" % (fam, rq), {"case": case, "exchange": i},
                           replay)
+        if hc != hs:
+            acc.violation("peers-hold-different-exchange-hash:%s%s" % (fam, rq),
+                          {"case": case, "exchange": i}, replay)
         try:
             Href, reply = reference_H(kexes[i], v["V_C"], v["V_S"], cxs[i], sxs[i], kc)
         except Exception as e:  # noqa
@@ -166,7 +222,7 @@ def judge_honest(acc, kex, alg, rekeys, ex):
                           {"case": case, "exchange": i, "error": repr(e)}, replay)
             continue
         if Href != hc:
-            acc.violation("exchange-hash-differs-from-reference:%s" % fam,
+            acc.violation("exchange-hash-differs-from-reference:%s%s" % (fam, rq),
                           {"case": case, "exchange": i, "impl": hc, "ref": Href}, replay)
         ok, sigalg = X.verify_signature(reply["K_S"], reply["sig"], Href)
         if not ok:
@@ -185,7 +241,14 @@ def judge_honest(acc, kex, alg, rekeys, ex):
         acc.violation("remote-server-key-differs-from-servers-key", {"case": case}, replay)
     if v["echo"] != (b"ping", b"pong"):
         acc.violation("data-corrupt-after-key-exchange", {"case": case, "echo": v["echo"]}, replay)
-    acc.nt(("honest", kex, alg, tuple(map(tuple, rekeys))))
+    if gexreq is not None:
+        sent = exchanges(v["csent"])[0][1][0]
+        want = (bytes([30]) + X.u32(gexreq[1]) if gexreq[0] == "old"
+                else bytes([34]) + b"".join(X.u32(x) for x in gexreq))
+        if sent != want:
+            acc.violation("harness-gex-request-not-forced", {"case": case, "sent": sent.hex()}, replay)
+        acc.count("gex_request_variants_checked")
+    acc.nt(("honest", kex, alg, tuple(map(tuple, rekeys)), tuple(gexreq or ())))
     if len(acc.samples) < 1:
         acc.sample({"honest": case, "H": v["ckh"][0][1], "exchanges": n,
                     "signature_algorithm": X.sig_algorithm(X.parse_reply(kexes[-1], sxs[-1][1][-1])["sig"])})
@@ -250,6 +313,23 @@ def fault_list(kex, alg, tier):
     return edits
 
 
+def rekey_fault_list(kex, alg):
+    """Reduced edit list for the reply of a re-key exchange (subset of fault_list(.., "quick"))."""
+    edits = []
+    for field in ("K_S", "f", "sig"):
+        qo = quick_offsets(field_maxlen(kex, alg, field))
+        inner = qo[5:-1]
+        for off in (3, 4, inner[len(inner) // 2], -1):
+            edits.append(("xor", field, off, 0x01))
+    if K.HOSTKEY_ALGS[alg] in OTHER_KEY:
+        edits.append(("swapkey", "same-type"))
+    edits += [("swapkey", "other-type"), ("resign", "other-hash"), ("resign", "other-key"),
+              ("swapfields", "f", "sig"), ("drop-field", "sig")]
+    if X.family(kex) == "gex":
+        edits += [("gxor", "p", 132, 0x01), ("gset", "g", 3)]
+    return edits
+
+
 def apply_edit(kex, alg, edit, payload, info):
     """Returns the new reply payload, or None if the edit does not apply (offset beyond field)."""
     rep = X.parse_reply(kex, payload)
@@ -307,10 +387,14 @@ def apply_group_edit(edit, payload, info):
     return payload[:a1] + X.mpint(edit[2])
 
 
-def fault_body(kex, alg, edit, info):
+def fault_body(kex, alg, edit, info, exchange=0, who="c"):
+    """exchange = 0: the initial exchange, altered on the wire; >= 1: that re-key exchange (started
+    by `who`), altered at the server's plaintext seam."""
     fam = X.family(kex)
     reply_type = 33 if fam == "gex" else 31
     group_edit = edit[0] in ("gxor", "gset")
+    if exchange:
+        return rekey_fault_body(kex, alg, edit, info, exchange, who)
 
     def rewrite(i, pl):
         if pl[0] == reply_type and i == (2 if fam == "gex" else 1):
@@ -359,6 +443,71 @@ def fault_body(kex, alg, edit, info):
     return body
 
 
+def rekey_fault_body(kex, alg, edit, info, exchange, who):
+    fam = X.family(kex)
+    reply_type = 33 if fam == "gex" else 31
+    group_edit = edit[0] in ("gxor", "gset")
+    st = {"kexinits": 0}
+
+    def rewrite_out(raw):
+        t = raw[0]
+        if t == 20:
+            st["kexinits"] += 1
+            return None
+        if st["kexinits"] - 1 != exchange or "orig" in info:
+            return None
+        if t == reply_type and not group_edit:
+            info["reply"] = raw
+            info["orig"] = raw
+            new = apply_edit(kex, alg, edit, raw, info)
+        elif group_edit and t == 31:
+            info["orig"] = raw
+            new = apply_group_edit(edit, raw, info)
+        else:
+            if t == reply_type:
+                info["reply"] = raw
+            return None
+        info["applied"] = new is not None and new != raw
+        return new
+
+    def body(s):
+        p = K.kpair(kex, alg, server_kw={"packetizer_class": K.SeamPacketizer})
+        p.ts.packetizer.rewrite_out = rewrite_out
+        p.start()
+        p.auth()
+        err = None
+        for j in range(exchange):
+            try:
+                (p.tc if who == "c" else p.ts).renegotiate_keys()
+            except Exception as e:  # noqa
+                err = e
+            s.quiesce()
+        cerr = p.tc.saved_exception or (err if who == "c" else None)
+        alive = None
+        if p.tc.active:
+            # is the session really still usable (not merely not yet torn down)?
+            try:
+                c, sv = p.session()
+                c.send(b"ping")
+                alive = sv.recv(4) == b"ping"
+            except Exception as e:  # noqa
+                alive = repr(e)
+        out = {
+            "err": cerr, "active": p.tc.active, "kex_done": p.tc.initial_kex_done,
+            "newkeys_count": p.tc.packetizer.sent_types().count(21),
+            "exchanges_latched": len(p.tc.kh_log), "authed": alive,
+            "saved": p.tc.saved_exception,
+            "verify": p.tc.verify_log[-1] if p.tc.verify_log else None,
+            "ckh": p.tc.kh_log[-1] if p.tc.kh_log else None,
+            "skh": p.ts.kh_log[-1] if p.ts.kh_log else None,
+        }
+        out["newkeys_sent"] = out["newkeys_count"] > exchange
+        p.close()
+        s.quiesce()
+        return out
+    return body
+
+
 def _clamped_string(data):
     """(string, rest) read the way paramiko's Message.get_binary does: a length that overruns the
     data is clamped to what is there, and (below 1 MiB) the result is zero-padded to that length."""
@@ -395,7 +544,12 @@ def encoding_only(kex, alg, v, info):
             and lenient_sig_values(v["verify"][1], alg) == lenient_sig_values(rep["sig"], alg))
 
 
-def fault_key(kex, alg, edit, info):
+def fault_key(kex, alg, edit, info, exchange=0):
+    k = _fault_key(kex, alg, edit, info)
+    return k + ":in-rekey-exchange" if exchange else k
+
+
+def _fault_key(kex, alg, edit, info):
     op = edit[0]
     if op == "xor":
         field = edit[1]
@@ -414,10 +568,13 @@ def fault_key(kex, alg, edit, info):
     return "altered-gex-group-accepted:%s:%s" % (edit[1], info.get("part", "value"))
 
 
-def run_fault(acc, kex, alg, edit):
+def run_fault(acc, kex, alg, edit, exchange=0, who="c"):
     info = {}
-    ex = K.run(fault_body(kex, alg, edit, info))
+    ex = K.run(fault_body(kex, alg, edit, info, exchange, who))
     case = {"kex": kex, "hostkey": alg, "edit": list(edit)}
+    if exchange:
+        case["exchange"] = exchange
+        case["initiator"] = who
     replay = {"kind": "fault", "case": case}
     if not info.get("applied"):
         if "orig" not in info:
@@ -428,13 +585,19 @@ def run_fault(acc, kex, alg, edit):
         return
     acc.ev()
     acc.count("faults_" + edit[0])
+    if exchange:
+        acc.count("faults_in_rekey_exchange_%d" % exchange)
     if ex.outcome != "ok":
         acc.violation("fault-run-harness-outcome:%s" % ex.outcome, {"case": case, "error": repr(ex.error)},
                       replay)
         return
     v = ex.value
-    accepted = v["err"] is None or v["kex_done"] or v["newkeys_sent"]
-    acc.nt(("fault", K.short(kex), alg, tuple(edit)))
+    if exchange:
+        # the client aborts = its transport is gone and it never answered the altered reply with NEWKEYS
+        accepted = v["active"] or v["newkeys_sent"]
+    else:
+        accepted = v["err"] is None or v["kex_done"] or v["newkeys_sent"]
+    acc.nt(("fault", K.short(kex), alg, tuple(edit)) + ((exchange, who) if exchange else ()))
     acc.count("aborted_with_" + (K.exc_name(v["err"]) or "nothing"))
     if accepted and edit[0] in ("xor", "gxor") and encoding_only(kex, alg, v, info):
         # DESIGN section 7: not an altered field *value*; counted, not alarmed
@@ -446,8 +609,9 @@ def run_fault(acc, kex, alg, edit):
                  "(e.g. a signature whose last byte is 0); the client computed the genuine K/H and "
                  "verified the genuine signature value under the genuine key - no field value changed")
     elif accepted:
-        acc.violation(fault_key(kex, alg, edit, info),
+        acc.violation(fault_key(kex, alg, edit, info, exchange),
                       {"case": case, "start_client_error": repr(v["err"]), "kex_done": v["kex_done"],
+                       "client_still_active": v["active"],
                        "newkeys_sent": v["newkeys_sent"], "auth_after": v["authed"],
                        "part": info.get("part")}, replay)
     elif len(acc.samples) < 3 and edit[0] != "xor":
@@ -458,15 +622,17 @@ def run_fault(acc, kex, alg, edit):
 def work(item, acc):
     kind = item[0]
     if kind == "honest":
-        for kex, alg, rekeys in item[1]:
-            ex = K.run(honest_body(kex, alg, rekeys))
+        for h in item[1]:
+            kex, alg, rekeys = h[:3]
+            gexreq = h[3] if len(h) > 3 else None
+            ex = K.run(honest_body(kex, alg, rekeys, gexreq))
             acc.ev()
             acc.count("honest_handshakes")
-            judge_honest(acc, kex, alg, rekeys, ex)
+            judge_honest(acc, kex, alg, rekeys, ex, gexreq)
     else:
-        _, kex, alg, edits = item
+        _, kex, alg, edits, exchange, who = item
         for e in edits:
-            run_fault(acc, kex, alg, tuple(e))
+            run_fault(acc, kex, alg, tuple(e), exchange, who)
 
 
 def rekey_sequences(tier):
@@ -496,7 +662,9 @@ def main(tier):
         "the reference; fault: one evaluation = one handshake with exactly one applied alteration; "
         "nontrivial = distinct (kex, host-key algorithm, rekey sequence) resp. (kex, host-key algorithm, "
         "edit) that was actually applied to the reply on the wire",
-        ["faults are applied to the initial exchange only (later exchanges are encrypted)",
+        ["wire faults are applied to the initial exchange (later exchanges are encrypted); faults in "
+         "re-key exchanges 1 and 2 are applied by the sending server in front of its cipher",
+         "gex requests: legal ones only (1024 <= min <= n <= max <= 8192)",
          "byte offsets are field relative; an offset beyond the actual (variable) field length is "
          "skipped and counted, the last byte is always covered through offset -1",
          "moduli pack = RFC 3526 groups (fixtures/moduli)"])
@@ -511,8 +679,16 @@ def main(tier):
     if tier == "thorough":
         honest += [("diffie-hellman-group-exchange-sha1", "rsa-sha2-256", seq)
                    for seq in rekey_sequences("quick")]
-    honest.sort(key=lambda h: -COST.get(h[0], 1))
-    items += [("honest", c) for c in enum.chunks(honest, max(1, len(honest) // 4))]
+    for gk in GEX_BASE:
+        for req in GEX_REQUESTS:
+            honest.append((gk, "ssh-ed25519", [["c", gk]], list(req)))
+
+    def hcost(h):
+        big = len(h) > 3 and max(x for x in h[3] if isinstance(x, int)) > 2048    # 4096-bit group
+        return COST.get(h[0], 1) * (3 if big else 1) * (1 + len(h[2]))
+
+    honest.sort(key=lambda h: -hcost(h))
+    items += [("honest", honest[i::8]) for i in range(8)]
     nfaults = 0
     for kex, alg in combos():
         if alg not in algs:
@@ -521,7 +697,26 @@ def main(tier):
         nfaults += len(edits)
         per = max(2, 24 // COST.get(kex, 1))
         for i in range(0, len(edits), per):
-            items.append(("fault", kex, alg, edits[i:i + per]))
+            items.append(("fault", kex, alg, edits[i:i + per], 0, "c"))
+        # exchange-index dimension: the same kinds of alteration in a re-key exchange
+        plans = []
+        red = rekey_fault_list(kex, alg)
+        if tier == "quick":
+            plans.append((1, "c", red))
+            if kex in CHEAP and alg == "ssh-ed25519":
+                plans.append((2, "s", red))
+        else:
+            full = fault_list(kex, alg, "quick")
+            assert all(e in full for e in red)
+            for who in ("c", "s"):
+                plans.append((1, who, full))
+                if kex in CHEAP and alg == "ssh-ed25519":
+                    plans.append((2, who, red))
+        per = max(2, 12 // COST.get(kex, 1))
+        for exchange, who, el in plans:
+            nfaults += len(el)
+            for i in range(0, len(el), per):
+                items.append(("fault", kex, alg, el[i:i + per], exchange, who))
     items.sort(key=lambda it: -(COST.get(it[1], 1) if it[0] == "fault" else 50))
     ck.merge(core.pmap(items, work))
     ck.extra["planned"] = {"honest": len(honest), "fault_edits": nfaults, "fault_combinations": len(combos())}
@@ -533,11 +728,13 @@ def replay(rec):
     acc = core.Acc()
     if rec["replay"]["kind"] == "honest":
         rk = [list(x) for x in case["rekeys"]]
-        ex = K.run(honest_body(case["kex"], case["hostkey"], rk))
+        gr = case.get("gex_request")
+        ex = K.run(honest_body(case["kex"], case["hostkey"], rk, gr))
         print("outcome:", ex.outcome, ex.error)
-        judge_honest(acc, case["kex"], case["hostkey"], rk, ex)
+        judge_honest(acc, case["kex"], case["hostkey"], rk, ex, gr)
     else:
-        run_fault(acc, case["kex"], case["hostkey"], tuple(case["edit"]))
+        run_fault(acc, case["kex"], case["hostkey"], tuple(case["edit"]), case.get("exchange", 0),
+                  case.get("initiator", "c"))
     print("case:", case)
     for v in acc.violations:
         print("VIOLATION", v["key"], v["detail"])
